@@ -12,7 +12,7 @@ VALIDATION_CASES = {'quick': 150, 'thorough': 500}
 TIME_BUDGET = {'quick': 900, 'thorough': 3300}
 OPTS = {'quick': {'hash_order': 'insertion'}, 'thorough': {'hash_order': 'insertion'}}
 BOUNDS = {
-    'quick': 'F-beta formula: counts tp, fp, fn <= 3 (all 64 combinations) with beta any f32 value in (0, 8] widened to f64 (queries decided by cvc5); binary_f1 / '
+    'quick': 'F-beta value equal to the defining formula up to 1e-9, range and calibration: counts tp, fp, fn <= 3 (all 64 combinations) with beta any f32 value in (0, 8] widened to f64 (queries decided by cvc5); binary_f1 / '
              'accuracy: symbolic vectors of length <= 3 (and mismatching lengths); spelling / whitespace correction counts: '
              'triples (input, prediction, target) of strings of <= 2 characters (third string <= 3) over {a, b, space} with '
              'symbolic characters, and word-level triples (1-2 words of 1-2 symbolic letters per text; prediction = target or '
@@ -153,6 +153,24 @@ def run(ctx, shape, opts):
             ctx.require(m.fp_binop('Eq', f1, FP(0.0, 'f64')), 'F-beta is 0 without true positives')
         if fp == 0 and fn == 0 and tp > 0:
             ctx.require(m.fp_binop('Eq', f1, FP(1.0, 'f64')), 'F-beta is 1 for a perfect result')
+        if tp > 0:
+            # the defining formula (1 + b^2) P R / (b^2 P + R), evaluated in f64 over the same beta; an implementation may
+            # compute it differently (e.g. from the counts), so equality is asked up to 1e-9 (values lie in [0, 1])
+            P, R = FP(tp / max(tp + fp, 1), 'f64'), FP(tp / max(tp + fn, 1), 'f64')
+            b2 = m.fp_binop('Mul', m.fp_binop('Mul', FP(1.0, 'f64'), beta), beta)       # beta.powi(2)
+            num = m.fp_binop('Mul', m.fp_binop('Mul', m.fp_binop('Add', FP(1.0, 'f64'), b2), P), R)
+            den = m.fp_binop('Add', m.fp_binop('Mul', b2, P), R)
+            ref = m.fp_binop('Div', num, den)
+            what = 'F-beta == (1 + beta^2) P R / (beta^2 P + R) up to 1e-9'
+            same = isinstance(f1.v, float) and isinstance(ref.v, float) and (f1.v == ref.v or f1.v == min(ref.v, 1.0))
+            if not same and not isinstance(f1.v, float) and not isinstance(ref.v, float):
+                # the term the code computed is literally the defining formula (optionally clamped to 1): nothing to solve
+                same = f1.v.eq(ref.v) or f1.v.eq(z3.fpMin(ref.v, z3.FPVal(1.0, z3.Float64())))
+            if same:
+                ctx.require(True, what)
+            else:
+                d = m.fp_binop('Sub', f1, ref)
+                ctx.require(m.conj([m.fp_binop('Le', d, FP(1e-9, 'f64')), m.fp_binop('Ge', d, FP(-1e-9, 'f64'))]), what)
         ctx.sample = dict(shape)
         return
     if md == 'binary':
@@ -365,6 +383,8 @@ def concrete_check(native, inputs, shape):
             failed.append('F-beta is 0 without true positives')
         if fp == 0 and fn == 0 and tp > 0 and f1 != 1.0:
             failed.append('F-beta is 1 for a perfect result')
+        if tp > 0 and f1 is not None and abs(f1 - py_f1(tp, fp, fn, beta)[0]) > 1e-9:
+            failed.append('F-beta == (1 + beta^2) P R / (beta^2 P + R) up to 1e-9')
         return failed
     if md == 'binary':
         n, dl = shape['n'], shape['dl']
